@@ -137,6 +137,12 @@ def run(F, R, tier):
     fl.run(nv["body"]["value"], False)
     bad = [n_ for k_, n_, st in fl.exits if st is False and k_ in ("return", "fallthrough")]
     R.ob("C06-c", "every successful resolution records the selection (add_nv)", not bad, "a success path of resolve_jsr_nv does not call packages.add_nv: later requirements would not unify with it", where(bad[0]) if bad else "")
+    ay = F.body("packages::PackageSpecifiers::add_used_yanked_package")
+    ins_y = [n for n in ay["_nodes"] if n.get("k") == "MethodCall" and n["name"] == "insert" and field_of(n["recv"]) == "used_yanked_packages" and peel_value(n["args"][0]).get("lid") == ay["body"]["params"][1].get("lid")]
+    bad_y, _ = must_pass(F, ay["body"]["value"], lambda n: n in ins_y)
+    R.ob("C06-c", "a reported yanked use is recorded", len(ins_y) == 1 and not bad_y, "add_used_yanked_package does not insert its argument into used_yanked_packages on every path", ay["file"])
+    uy = F.body("packages::PackageSpecifiers::used_yanked_packages")
+    R.ob("C06-c", "used_yanked_packages() lists what was recorded", any(n.get("k") == "Field" and n["field"] == "used_yanked_packages" for n in uy["_nodes"]) and not any(n.get("k") == "MethodCall" and n["name"] in ("filter", "skip", "take", "filter_map", "skip_while", "take_while", "step_by") for n in uy["_nodes"]), "accessor no longer returns the whole set", uy["file"])
     yk = [n for n in nv["_nodes"] if callee_matches(n, ["PackageSpecifiers::add_used_yanked_package"])]
     if R.ob("C06-c", "yanked use is reported", len(yk) == 1, "add_used_yanked_package not called in resolve_jsr_nv", nv["file"]):
         g = guards_at(F, yk[0])
